@@ -351,6 +351,7 @@ func (g *gen) stmt() {
 		{"repanic", 3, g.o.Unwind && g.panicky && g.inLoop == 0 && g.inDefer == 0, g.sRepanic},
 		{"indirectrecover", 2, g.o.Unwind && g.inLoop == 0 && g.inDefer == 0, g.sIndirectRecover},
 		{"deferloop", 2, g.o.Unwind && deep && g.inLoop == 0 && g.inDefer == 0, g.sDeferLoop},
+		{"replacepanic", 3, g.o.Unwind && g.panicky && g.inLoop == 0 && g.inDefer == 0, g.sReplacePanic},
 	}
 	total := 0
 	for i := range forms {
@@ -793,6 +794,20 @@ func (g *gen) sNestedPanic() {
 	g.line("}()")
 }
 
+func (g *gen) sReplacePanic() {
+	// a deferred call that panics without recovering: it replaces a panic in flight (which is thereby aborted)
+	// or starts one during a normal return; an earlier-deferred call of this frame (or a caller) recovers it
+	g.f("panic:replaces-panic-in-flight")
+	g.line("defer func() {")
+	g.inDefer++
+	g.stmtStart()
+	g.line("\tif %s {", g.boolExpr(1))
+	g.line("\t\tpanic(%s)", g.mod(g.intExpr(0)))
+	g.line("\t}")
+	g.inDefer--
+	g.line("}()")
+}
+
 func (g *gen) sRepanic() {
 	g.f("panic:re-panic-after-recover")
 	g.line("defer func() {")
@@ -1053,8 +1068,18 @@ func (g *gen) function(idx int) {
 	if g.o.Unwind {
 		g.panicky = g.r.Chance(70, 100)
 	}
-	g.line("func f%d(p int) (r int) {", idx)
-	g.ind++
+	if g.o.Unwind && g.r.Chance(1, 4) {
+		// unnamed result: after a recovered panic the function returns the zero value; deferred closures can
+		// not change what a completed return statement returns
+		g.f("func:unnamed-result")
+		g.line("func f%d(p int) int {", idx)
+		g.ind++
+		g.line("r := 0")
+		g.line("_ = r")
+	} else {
+		g.line("func f%d(p int) (r int) {", idx)
+		g.ind++
+	}
 	g.line("a, b, c := p, 1, 2")
 	g.line("s := \"s\"")
 	g.line("arr := [3]int{1, 2, 3}")
